@@ -91,8 +91,10 @@ def from_bipartite_graph(G, dual=False):
                 H.add_node_to_edge(v, u, direction="in")
             else:
                 H.add_node_to_edge(u, v, direction="out")
-        else:
+        elif v in edges:
             H.add_node_to_edge(v, u)
+        else:
+            H.add_node_to_edge(u, v)
 
     return H.dual() if dual else H
 
